@@ -161,9 +161,6 @@ def programs(tier: str, seed: int):
     fams = [("multi_join", multi_join()), ("join", joins()), ("derived", derived()), ("subquery", subqueries()), ("aggregate", aggregates()), ("setop", setops()), ("order", ordering())]
     out = []
     for name, progs in fams:
-        if tier == "quick":
-            rnd.shuffle(progs)
-            keep = {"multi_join": 90, "join": 60, "derived": 60, "subquery": 90, "aggregate": 22, "setop": 24, "order": 26}[name]
-            progs = progs[:keep]
+        # the whole family in both tiers (a seeded change was missed when quick sampled it); thorough raises K instead
         out += [(name, p) for p in progs]
     return out
